@@ -363,6 +363,8 @@ pub fn emit(src: &Path, out: &mut String) {
             if m.ident.as_ref().map(|i| i == "impl_serde").unwrap_or(false) {
                 // macro_rules! impl_serde { … }
                 let sq: String = t.chars().filter(|c| !c.is_whitespace()).collect();
+                // (the field may be a macro parameter: `self.$field`, `Self { $field: x }`)
+                let sq = sq.replace("self.$field", "self.key").replace("Self{$field:inner}", "Self{key}").replace("Self{$field:key}", "Self{key}").replace("Ok(inner)=>Ok(Self{key})", "Ok(key)=>Ok(Self{key})").replace("letinner=", "letkey=").replace("Ok(Self{$field:inner})", "Ok(Self{key})");
                 // the raw NonZero is handed to / taken from serde unchanged, in any of these spellings
                 let ser = ["{self.key.serialize(serializer)}", "{letSelf{key}=self;Serialize::serialize(key,serializer)}",
                            "{Serialize::serialize(&self.key,serializer)}", "{letSelf{key}=self;key.serialize(serializer)}"];
@@ -376,7 +378,9 @@ pub fn emit(src: &Path, out: &mut String) {
                 for part in t.split(',') {
                     let kv: Vec<&str> = part.split("=>").map(|x| x.trim()).collect();
                     if kv.len() == 2 && !kv[0].is_empty() {
-                        serde_pairs.push((kv[0].to_string(), kv[1].to_string()));
+                        // `Spur => NonZeroU32` or `Spur . key => NonZeroU32`
+                        let ty_name = kv[0].split('.').next().unwrap_or("").trim();
+                        serde_pairs.push((ty_name.to_string(), kv[1].to_string()));
                     }
                 }
             }
